@@ -227,7 +227,9 @@ class Check(object):
             'coverage': cov, 'assumptions': self.assume, 'wall_s': round(time.time() - self.t0, 2),
             'violations': len(self.violations),
         }
-        with open(os.path.join(os.environ.get('VERIF_EVIDENCE_DIR') or os.path.join(ROOT, 'evidence'), self.prop + '.json'), 'w') as f:
+        evdir = os.environ.get('VERIF_EVIDENCE_DIR') or os.path.join(ROOT, 'evidence')
+        os.makedirs(evdir, exist_ok=True)
+        with open(os.path.join(evdir, self.prop + '.json'), 'w') as f:
             json.dump(ev, f, indent=1, default=str)
         for l in lines:
             print(l)
